@@ -269,7 +269,10 @@ func (d *Decoder) readMap(dest reflect.Value) error {
 		SetValue(dest, r)
 		return nil
 	case _mapTypedTag:
-		d.readString(_tagRead)
+		// the type is a string (registered for later back-references) or a reference to an earlier type
+		if _, err := d.readType(); err != nil {
+			return newCodecError("readMap", err)
+		}
 	case _mapUntypedTag:
 		//do nothing
 	default:
